@@ -679,3 +679,60 @@ def _m45():
         from bfg9000.path import Path
         return cls(Path.from_json(data['pattern']))
     g.PathGlob.from_json = classmethod(from_json)
+
+
+@mutant('relpath_ignores_submodule')
+def _m46():
+    from bfg9000.builtins import path as bp
+    from bfg9000 import path as _path
+
+    def relpath(context, path, strict=False):
+        return _path.Path.ensure(path, _path.Root.srcdir, strict=strict)
+    bp.relpath = relpath
+
+
+@mutant('buildpath_not_rerooted')
+def _m47():
+    from bfg9000.builtins import path as bp
+    from bfg9000 import path as _path
+
+    def buildpath(context, path, strict=False):
+        return _path.Path.ensure(path, context.path.parent(), strict=strict)
+    bp.buildpath = buildpath
+
+
+@mutant('exports_shared_dict')
+def _m48():
+    # every nested script writes into the exports of the first submodule frame
+    from bfg9000.builtins import builtin as bb
+
+    def exports(self):
+        if len(self.path_stack) == 1:
+            raise ValueError('exports are not allowed on root-level bfg scripts')
+        return self.path_stack[1].exports
+    bb.StackContext.exports = property(exports)
+
+
+@mutant('toggle_prefix_unanchored')
+def _m49():
+    from bfg9000.arguments import parser as ap
+    import re as _re
+
+    def _prefix(s, prefix):
+        if not s.startswith('--'):
+            raise ValueError('option string must begin with "--"')
+        return _re.sub('(--(x-)?)', r'\1' + prefix, s)
+    ap.ToggleAction._prefix = staticmethod(_prefix)
+
+
+@mutant('user_arg_no_x_alias')
+def _m50():
+    from bfg9000.arguments import parser as ap
+
+    def add_user_argument(parser, *names, **kwargs):
+        if any(not i.startswith('--') for i in names):
+            raise ValueError('option string must begin with "--"')
+        if any(i.startswith('--x-') for i in names):
+            raise ValueError('"x-" prefix is reserved')
+        return parser.add_argument(*names, **kwargs)
+    ap.add_user_argument = add_user_argument
